@@ -39,7 +39,8 @@ ORACLE_PREMISES = [
 MODELLED = ('sr/value_types.py: the 15 constructors (attribute writing + validation), value accessors, '
             '_assert_value_type, _get_content_item_class, ContentItem._from_dataset_derived/_from_dataset_base, '
             'X.from_dataset, ContentSequence.from_sequence/_check_dataset/__init__ relationship rule; '
-            'sr/coding.py CodedConcept.__init__/from_dataset/accessors; coplanarity as the exact rank test. '
+            'sr/coding.py CodedConcept.__init__/from_dataset (code_accept: the checks alone; code_from: checks + accessors)'
+            '/accessors; coplanarity as the exact rank test. '
             'accept = parse-time checks alone; parse = the same followed by reading every accessor; '
             'parse2 = accept over the whole tree, then the accessors (faithful error precedence, multi-fault '
             'malformed stream); ContentSequence(items, is_root, is_sr) / from_sequence(..., is_root, is_sr) in the '
@@ -51,7 +52,7 @@ MODELLED = ('sr/value_types.py: the 15 constructors (attribute writing + validat
             'stored by the constructor: in-place changes of arrays handed out or handed in do not reach the item, edits '
             'and re-assignment of GraphicData do); spatial.are_points_coplanar driven directly.')
 STRATA = ['tree', 'code', 'code_from', 'scoord', 'scoord3d', 'malformed', 'seqmode', 'seqops', 'subclass', 'num_int',
-          'falsy', 'history', 'coplanar']
+          'falsy', 'history', 'coplanar', 'concept']
 NOT_EXECUTED = ['near-tolerance coplanarity (deviation from the least-squares plane between 1e-7 and 1e-3: not judged)',
                 'non-ASCII text (model strings are ASCII)',
                 'sr/content.py: constructors and accessors of the template content items, VolumeSurface / '
@@ -62,7 +63,17 @@ RULE = ('tree: random content trees of depth <= 4 over all 15 value types (codes
         'counts, frame/segment/channel lists, all 7 relationship types) observed after construction, '
         'from_dataset on a plain copy, from_sequence dispatch, and both again after dcmwrite+dcmread; '
         'code: CodedConcept value-length / URN boundaries and meaning length 63..66; code_from: coded-concept '
-        'datasets with 0/1/2 code value attributes or missing meaning/designator; scoord / scoord3d: every '
+        'datasets with EVERY subset of the three code value attributes x meaning present/absent x designator '
+        'present/absent x value shapes (short, 16, > 16, URN, URL), and each single carrier x shape complete / lacking '
+        'exactly one required attribute - observed: CodedConcept.from_dataset ALONE (accept / exception class), then the '
+        'four accessors, ==, !=, hash, comparison with a pydicom Code, argument left unchanged; concept: a content item '
+        '(every value type for the NAME, CODE for the value, NUM for unit and qualifier; flat or 1-2 containers deep; '
+        'plain or byte round-tripped dataset) whose coded concept carries its code in CodeValue / LongCodeValue / '
+        'URNCodeValue x {CodingSchemeDesignator | CodeMeaning | the code value attribute deleted, a second code value '
+        'attribute added (must be refused with AttributeError by X.from_dataset alone and by from_sequence alone), '
+        'CodingSchemeVersion deleted, the value moved to another code value attribute, nothing (must parse to the same '
+        'item, every concept usable in == / hash)}; the same faults in the name of the datasets given to the 12 '
+        'template classes (subclass); scoord / scoord3d: every '
         'graphic type x point count 0..8 x wrong dimension x open/closed x coplanar/non-coplanar; '
         'malformed: one guard violated per dataset (attribute deleted at any depth, value type swapped or '
         'unknown, wrong class, relationship deleted/invalid, emptied sequences, odd graphic data; ALL 15 x 14 pairs '
@@ -522,14 +533,20 @@ def sub_table():
 # only tolerate acceptance for a subclass whose source does not assert if that were a recorded OPEN finding.
 
 
-def g_subclass(rng):
+def g_subclass(rng, sub=None, cfault=None):
     subs = sorted(sub_table())
-    sub = rng.choice(subs)
+    sub = sub or rng.choice(subs)
     parent_vt = [v for v, c in CLASS.items() if c == sub_table()[sub][0]][0]
-    t = parent_vt if rng.random() < 0.5 else rng.choice(VTS)
+    t = parent_vt if cfault or rng.random() < 0.5 else rng.choice(VTS)
     tree = g_tree(rng, 0, rng.choice([0, 0, 1]), False, False, [t])
     tree['t'], tree['val'] = t, g_value(rng, t, False)      # g_tree may have turned it into a container
     fault = None
+    if cfault:                  # a fault in the coded NAME (the value's concepts are not converted by these classes)
+        tree['name'][0] = g_carrier_value(rng, cfault[0])
+        if cfault[1] == 'del_version':
+            tree['name'][3] = '1.0'
+        cfault = [cfault[0], cfault[1], _other_carrier(rng, cfault[0], tree['name'][0], cfault[1])]
+        return {'kind': 'subclass', 'sub': sub, 'tree': tree, 'del': None, 'cfault': cfault}
     if rng.random() < 0.45:
         fault = rng.choice(REQUIRED[t] + ['ValueType', 'ConceptNameCodeSequence', 'RelationshipType'])
     return {'kind': 'subclass', 'sub': sub, 'tree': tree, 'del': fault}
@@ -539,7 +556,95 @@ def _sub_ds(c):
     ds = plain(build(c['tree']))
     if c['del'] is not None:
         del ds[c['del']]
+    if c.get('cfault'):
+        _concept_fault(ds.ConceptNameCodeSequence[0], *c['cfault'])
     return ds
+
+
+# ---- coded concepts inside content items: which attribute carries the code x which attribute is missing -----------
+CARRIERS = ['CodeValue', 'LongCodeValue', 'URNCodeValue']
+CODE_SHAPES = ['x1', 'ABCDEFGHIJKLMNOP', 'CUSTOM-FINDING-0001-LEFT', 'urn:oid:1.2.3', 'http://x.y/z']
+CONCEPT_SITES = [(t, 'name') for t in VTS] + [('CODE', 'value'), ('NUM', 'unit'), ('NUM', 'qual')]
+CONCEPT_BREAKING = ['del_scheme', 'del_meaning', 'del_carrier', 'add_carrier']
+CONCEPT_HARMLESS = ['del_version', 'rename_carrier', 'none']
+CONCEPT_ATTR = {'del_scheme': 'CodingSchemeDesignator', 'del_meaning': 'CodeMeaning', 'del_version': 'CodingSchemeVersion'}
+
+
+def g_carrier_value(rng, carrier):
+    """a code value the constructor stores in the given attribute"""
+    if carrier == 'CodeValue':
+        return 'c' + _word(rng, rng.choice([0, 5, 14, 15]))
+    if carrier == 'LongCodeValue':
+        return rng.choice(['CUSTOM-FINDING-' + _word(rng, 4) + '-LEFT', 'L' + _word(rng, 16), 'l' + _word(rng, 17),
+                           'x' + _word(rng, 39), 'arbitrary-units-per-mm2'])
+    return rng.choice(['urn:oid:1.2.' + str(rng.randint(1, 999)), 'http://x.y/' + _word(rng, 3), 'urn:uuid:' + _word(rng, 20),
+                       _word(rng, 2) + '://' + _word(rng, 18)])
+
+
+def _other_carrier(rng, carrier, value, fault):
+    """the second attribute of add_carrier / the new home of the value of rename_carrier (CodeValue holds <= 16 chars)"""
+    if fault not in ('add_carrier', 'rename_carrier'):
+        return None
+    return rng.choice([k for k in CARRIERS if k != carrier and (k != 'CodeValue' or fault == 'add_carrier' or len(value) <= 16)])
+
+
+def g_concept(rng, t, where, carrier, fault):
+    tree = g_tree(rng, 0, 0, False, False, [t])
+    tree['t'], tree['val'] = t, g_value(rng, t, False)
+    if where == 'qual':
+        tree['val']['qual'] = g_code(rng)
+    code = {'name': lambda: tree['name'], 'value': lambda: tree['val']['code'], 'unit': lambda: tree['val']['unit'],
+            'qual': lambda: tree['val']['qual']}[where]()
+    code[0] = g_carrier_value(rng, carrier)
+    if fault == 'del_version':
+        code[3] = rng.choice(['2020', '1.0'])
+    path = []
+    for _ in range(rng.choice([0, 0, 0, 1, 1, 2])):
+        sib = [g_tree(rng, 0, 0, False, False) for _ in range(rng.choice([0, 0, 1]))]
+        i = rng.randint(0, len(sib))
+        tree = {'t': 'CONTAINER', 'name': g_code(rng), 'rel': rng.choice(RELS), 'val': g_value(rng, 'CONTAINER', False),
+                'kids': sib[:i] + [tree] + sib[i:]}
+        path = [i] + path
+    return {'kind': 'concept', 'tree': tree, 'path': path, 'where': where, 'carrier': carrier, 'fault': fault,
+            'other': _other_carrier(rng, carrier, code[0], fault), 'src': rng.choice(['plain', 'plain', 'bytes'])}
+
+
+def _concept_fault(cd, carrier, fault, other):
+    """damage (or harmlessly change) one coded-concept dataset in place"""
+    assert carrier in cd and sum(k in cd for k in CARRIERS) == 1, (carrier, [e.keyword for e in cd])
+    if fault in CONCEPT_ATTR:
+        del cd[CONCEPT_ATTR[fault]]
+    elif fault == 'del_carrier':
+        del cd[carrier]
+    elif fault == 'add_carrier':
+        setattr(cd, other, {'CodeValue': 'X1', 'LongCodeValue': 'L' * 17, 'URNCodeValue': 'urn:x:1'}[other])
+    elif fault == 'rename_carrier':
+        v = str(cd[carrier].value)
+        del cd[carrier]
+        setattr(cd, other, v)
+    elif fault != 'none':
+        raise ValueError(fault)
+
+
+def _concept_site(node, where):
+    if where == 'name':
+        return node.ConceptNameCodeSequence[0]
+    if where == 'value':
+        return node.ConceptCodeSequence[0]
+    if where == 'unit':
+        return node.MeasuredValueSequence[0].MeasurementUnitsCodeSequence[0]
+    return node.NumericValueQualifierCodeSequence[0]
+
+
+def _concept_inputs(c):
+    it = build(c['tree'])
+    ds = via_bytes(it) if c['src'] == 'bytes' else plain(it)
+    node = ds
+    for i in c['path']:
+        node = node.ContentSequence[i]
+    _concept_fault(_concept_site(node, c['where']), c['carrier'], c['fault'], c['other'])
+    return ds
+
 
 # ---- values that Python / pydicom treat as "nothing" ------------------------------------------------------------
 def g_falsy(rng):
@@ -705,10 +810,19 @@ def gen_cases(rng, tier):
             k = rng.choice([14, 15, 16, 17, 18])
             c[0] = rng.choice([_word(rng, k), ('urn:' + _word(rng, k))[:k], (_word(rng, 3) + '://' + _word(rng, k))[:k]])
         cases.append({'kind': 'code', 'code': c})
-    for _ in range(40 * n):
-        kws = [k for k in ['CodeValue', 'LongCodeValue', 'URNCodeValue'] if rng.random() < 0.4]
-        cases.append({'kind': 'code_from', 'kws': kws, 'meaning': rng.random() < 0.85,
-                      'scheme': rng.random() < 0.85, 'version': rng.random() < 0.3, 'v': _word(rng, 5)})
+    for _ in range(n):      # every subset of the three carriers x meaning x designator, two value shapes each
+        for m in range(8):
+            kws = [k for i, k in enumerate(CARRIERS) if m >> i & 1]
+            for meaning in (True, False):
+                for scheme in (True, False):
+                    for vs in rng.sample(CODE_SHAPES, 2):
+                        cases.append({'kind': 'code_from', 'kws': kws, 'meaning': meaning, 'scheme': scheme,
+                                      'version': rng.random() < 0.3, 'v': _word(rng, 5), 'vs': vs})
+        for kw in CARRIERS:     # one carrier, every value shape: complete / exactly one required attribute missing
+            for vs in CODE_SHAPES:
+                for meaning, scheme in ((True, True), (True, False), (False, True)):
+                    cases.append({'kind': 'code_from', 'kws': [kw], 'meaning': meaning, 'scheme': scheme,
+                                  'version': rng.random() < 0.5, 'v': _word(rng, 5), 'vs': vs})
     for gt in G2:
         for cnt in range(0, 9):
             for dim in (2, 3):
@@ -756,6 +870,18 @@ def gen_cases(rng, tier):
         cases.append(g_seqops(rng))
     for _ in range(50 * n):
         cases.append(g_subclass(rng))
+    for sub in sorted(sub_table()):        # the name concept of the template items: each carrier without designator, ...
+        for carrier in CARRIERS:
+            cases.append(g_subclass(rng, sub, [carrier, 'del_scheme', None]))
+        cases.append(g_subclass(rng, sub, [rng.choice(CARRIERS), 'del_meaning', None]))
+        cases.append(g_subclass(rng, sub, [rng.choice(CARRIERS), rng.choice(['del_carrier', 'add_carrier', 'del_version',
+                                                                             'rename_carrier', 'none']), None]))
+    for _ in range(min(n, 4)):             # coded concepts inside content items: position x carrier x fault
+        for t, where in CONCEPT_SITES:
+            for carrier in CARRIERS:
+                for fault in CONCEPT_BREAKING:
+                    cases.append(g_concept(rng, t, where, carrier, fault))
+                cases.append(g_concept(rng, t, where, carrier, rng.choice(CONCEPT_HARMLESS)))
     for z in [10**15, 10**15 - 1, 10**15 + 1, 10**16 - 1, 10**16, 10**16 + 1, 2**53 - 1, 2**53, 2**53 + 1, 2**53 + 2,
               2**53 + 3, 2**53 + 4, 9007199254740993, 2**60, 2**63 - 1, 10**17, 123456789012345678, 0, 7]:
         cases.append({'kind': 'num_int', 'z': z})
@@ -1117,14 +1243,38 @@ def _cls(vtm, sr, name):
     return getattr(vtm, name)
 
 
-def _parse_own(cls_name, ds):
-    sr, vtm = _hd()
-    return obs_item(getattr(vtm, cls_name).from_dataset(ds))
+def _touch(it):
+    """use every coded concept of a parsed item the way ContentSequence and callers do: ==, !=, hash"""
+    cs = [it.name]
+    n = type(it).__name__
+    if n == 'CodeContentItem':
+        cs.append(it.value)
+    if n == 'NumContentItem':
+        cs += [it.unit] + ([] if it.qualifier is None else [it.qualifier])
+    for cc in cs:
+        assert cc == cc and not (cc != cc), 'coded concept unequal to itself'
+        hash(cc)
+    for k in (it.ContentSequence if 'ContentSequence' in it else []):
+        _touch(k)
 
 
-def _parse_seq(ds_list):
+def _parse_own(cls_name, ds, touch=False):
     sr, vtm = _hd()
-    return [obs_item(i) for i in vtm.ContentSequence.from_sequence(ds_list)]
+    it = getattr(vtm, cls_name).from_dataset(ds)
+    o = obs_item(it)
+    if touch:
+        _touch(it)
+    return o
+
+
+def _parse_seq(ds_list, touch=False):
+    sr, vtm = _hd()
+    seq = vtm.ContentSequence.from_sequence(ds_list)
+    o = [obs_item(i) for i in seq]
+    if touch:
+        for i in seq:
+            _touch(i)
+    return o
 
 
 def _status_own(cls_name, ds):
@@ -1259,7 +1409,25 @@ def run_impl(c):
             return [kw[0] if len(kw) == 1 else repr(kw), tree_canon(ds_tree(plain(cc))), back, obs_code(fc)]
         return catch(f)
     if k == 'code_from':
-        return catch(lambda: obs_code(sr.CodedConcept.from_dataset(_code_ds(c))))
+        def f():
+            from pydicom.dataset import Dataset
+            from pydicom.sr.coding import Code
+            ds = _code_ds(c)
+            cc = sr.CodedConcept.from_dataset(ds)
+            assert type(ds) is Dataset and ds == _code_ds(c), 'from_dataset(copy=True) changed its argument'
+            o = obs_code(cc)
+            # an accepted concept must be usable: ==, !=, hash (name look-up of ContentSequence), comparison with a Code
+            assert cc == cc and not (cc != cc) and hash(cc) == hash(sr.CodedConcept.from_dataset(ds))
+            assert cc == Code(*o), o
+            return o
+        return [catch(lambda: sr.CodedConcept.from_dataset(_code_ds(c)) is None or 'ok'), catch(f)]
+    if k == 'concept':
+        ds = catch(_concept_inputs, c)
+        if isinstance(ds, Err):
+            return ds
+        cls = CLASS[c['tree']['t']]
+        return [catch(_status_own, cls, plain(ds)), catch(_parse_own, cls, plain(ds), True),
+                catch(_status_seq, [plain(ds)]), catch(_parse_seq, [plain(ds)], True)]
     if k == 'scoord':
         n = _cc(sr, ['1', '99X', 'n', None])
         return catch(lambda: bool(sr.ScoordContentItem(n, c['gt'], _lay(np.array(c['pts'], dtype=float).reshape(len(c['pts']), c['dim'])),
@@ -1443,7 +1611,8 @@ def _code_ds(c):
     from pydicom.dataset import Dataset
     d = Dataset()
     for kw in c['kws']:
-        setattr(d, kw, c['v'] + kw[:1])
+        v = c.get('vs', c['v'])         # any string in Long / URN Code Value; Code Value (SH) holds <= 16 characters
+        setattr(d, kw, (v[:15] if kw == 'CodeValue' else v) + kw[:1])
     if c['meaning']:
         d.CodeMeaning = 'meaning'
     if c['scheme']:
@@ -1555,6 +1724,12 @@ def coq_term(c):
         return f'(run_scoord {G2[c["gt"]]} {_qrows(c["pts"])})'
     if k == 'scoord3d':
         return f'(run_scoord3d {G3[c["gt"]]} {_qrows(c["pts"])})'
+    if k == 'concept':
+        _hd()
+        ds = catch(_concept_inputs, c)
+        if isinstance(ds, Err):
+            return None
+        return f'(run_parse {CLASS[c["tree"]["t"]]} {tree_coq(ds_tree(ds))})'
     if k == 'malformed':
         _hd()
         r = catch(_mal_inputs, c)
@@ -1814,11 +1989,51 @@ def oracle(c, out):
             return f'CodedConcept.from_code(Code{(v, s, m, ver)}) reports {out[3]}'
         return None
     if k == 'code_from':
+        if isinstance(out, Err):
+            return f'code_from: {out}'
+        st, ob = out
         ok = len(c['kws']) == 1 and c['meaning'] and c['scheme']
         if ok:
-            want = [c['v'] + c['kws'][0][:1], '99X', 'meaning', '1.1' if c['version'] else None]
-            return None if out == want else f'coded concept parsed as {out}, expected {want}'
-        return None if out == Err('AttributeError') else f'incomplete coded concept gave {out}'
+            want = [str(_code_ds(c)[c['kws'][0]].value), '99X', 'meaning', '1.1' if c['version'] else None]
+            if st != 'ok':
+                return f'complete coded concept ({c["kws"][0]}) refused by CodedConcept.from_dataset: {st}'
+            return None if ob == want else f'coded concept parsed as {ob}, expected {want}'
+        missing = ([] if len(c['kws']) == 1 else [f'{len(c["kws"])} code value attributes {c["kws"]}']) + \
+            ([] if c['meaning'] else ['no CodeMeaning']) + ([] if c['scheme'] else ['no CodingSchemeDesignator'])
+        if st != Err('AttributeError'):
+            return (f'CodedConcept.from_dataset accepted an incomplete coded concept ({", ".join(missing)}; code value in '
+                    f'{c["kws"]}): {st}; reading it afterwards: {ob}')
+        return None if ob == Err('AttributeError') else f'incomplete coded concept ({", ".join(missing)}) gave {ob}'
+    if k == 'concept':
+        if isinstance(out, Err):
+            return f'admissible base tree of a concept case refused: {out}'
+        st_own, own, st_seq, seq = out
+        t = c['tree']
+        node = t
+        for i in c['path']:
+            node = node['kids'][i]
+        cls = CLASS[t['t']]
+        what = (f'{node["t"]} item (depth {len(c["path"])}, {c["src"]} dataset) whose {c["where"]} concept carries its code in '
+                f'{c["carrier"]}')
+        if c['fault'] in CONCEPT_BREAKING:
+            why = {'del_scheme': 'lacks CodingSchemeDesignator', 'del_meaning': 'lacks CodeMeaning',
+                   'del_carrier': 'has no code value attribute', 'add_carrier': f'also has {c["other"]}'}[c['fault']]
+            for nm, o in ((f'{cls}.from_dataset', st_own), ('ContentSequence.from_sequence', st_seq),
+                          (f'{cls}.from_dataset + accessors', own), ('from_sequence + accessors', seq)):
+                if o != Err('AttributeError'):
+                    return f'{nm} did not refuse (AttributeError) a {what} and {why}: {_short_out(o)}'
+            return None
+        exp = exp_item(copy.deepcopy(t))
+        e = exp
+        for i in c['path']:
+            e = e[4][i]
+        if c['fault'] == 'del_version':
+            w = c['where']
+            (e[1] if w == 'name' else e[3] if w == 'value' else e[3][2] if w == 'unit' else e[3][3])[3] = None
+        if st_own != 'ok' or st_seq != 'ok':
+            return f'complete {what} ({c["fault"]}) refused: from_dataset {st_own}, from_sequence {st_seq}'
+        d = _first_diff(own, exp, 'from_dataset') or _first_diff(seq, [exp], 'from_sequence')
+        return d and f'{what} ({c["fault"]}): {d}'
     if k == 'scoord':
         n = len(c['pts'])
         want = c['dim'] == 2 and {'POINT': n == 1, 'CIRCLE': n == 2, 'ELLIPSE': n == 4}.get(c['gt'], n >= 2)
@@ -1928,6 +2143,13 @@ def oracle(c, out):
     if k == 'subclass':
         parent, asserts = sub_table()[c['sub']]
         t, dl = c['tree']['t'], c['del']
+        if c.get('cfault'):
+            carrier, fault, other = c['cfault']
+            want = Err('AttributeError') if fault in CONCEPT_BREAKING else 'ok'
+            if CLASS[t] != parent:
+                want = Err('ValueError') if want == 'ok' else out if out in (Err('AttributeError'), Err('ValueError')) else want
+            return None if out == want else (f'{c["sub"]}.from_dataset of a {t} dataset whose name carries its code in {carrier} '
+                                             f'({fault}{" " + other if other else ""}) gave {out}, expected {want}')
         if dl == 'ConceptNameCodeSequence' and CLASS[t] != parent:
             # two faults (value type of another class AND no concept name): either refusal is a correct one
             return None if out in (Err('AttributeError'), Err('ValueError')) else \
@@ -1964,6 +2186,11 @@ def oracle(c, out):
             return f'index / in gave {probes}, expected {wprobes}'
         return None
     return f'unknown kind {k}'
+
+
+def _short_out(o):
+    s_ = repr(o)
+    return s_ if len(s_) < 200 else s_[:200] + '...'
 
 
 def _short(x):
